@@ -12,7 +12,7 @@ from .. import gen
 from ..common import Verdict, digest, rng_for, run_shards, seed, tier
 
 PROP = "C14"
-N = {"quick": 2500, "thorough": 50000}
+N = {"quick": 4000, "thorough": 60000}
 FWS = ["base", "pydantic", "attrs", "dataclasses", "sqlmodel"]
 
 
